@@ -51,6 +51,7 @@ import (
 	"github.com/oasisprotocol/curve25519-voi/curve/scalar"
 	"github.com/oasisprotocol/curve25519-voi/primitives/ed25519"
 	"github.com/oasisprotocol/curve25519-voi/primitives/ed25519/extra/cache"
+	"github.com/oasisprotocol/curve25519-voi/primitives/ed25519/extra/ecvrf"
 	"github.com/oasisprotocol/curve25519-voi/primitives/h2c"
 	"github.com/oasisprotocol/curve25519-voi/primitives/merlin"
 	"github.com/oasisprotocol/curve25519-voi/primitives/sr25519"
@@ -61,7 +62,7 @@ import (
 	ref "verifref"
 )
 
-var c18Kinds = []string{"sign", "verify", "vexp", "vcache", "batch", "keygen", "x25519", "x25519base", "mulbase", "triple", "srsign", "srverify", "h2c", "merlin"}
+var c18Kinds = []string{"sign", "verify", "vexp", "vcache", "batch", "keygen", "x25519", "x25519base", "mulbase", "triple", "srsign", "srverify", "h2c", "merlin", "vrfprove", "vrfverify"}
 
 type c18Op struct {
 	Kind string
@@ -98,7 +99,7 @@ type c18WCase struct {
 
 var c18MixedKinds = []string{
 	"vcache", "vcache", "vcache", "vcache", "vexp", "vexp", "vexp", "batch", "batch", "sign", "sign", "verify", "verify",
-	"keygen", "x25519", "x25519base", "mulbase", "mulbase", "triple", "triple", "srsign", "srverify", "h2c", "merlin"}
+	"keygen", "x25519", "x25519base", "mulbase", "mulbase", "triple", "triple", "srsign", "srverify", "h2c", "h2c", "merlin", "vrfprove", "vrfverify"}
 
 func c18GenOp(t *rapid.T, kinds []string, keys []int, badOneIn int) c18Op {
 	op := c18Op{}
@@ -318,6 +319,12 @@ func c18Touches(op c18Op) []string {
 		return []string{"ED25519_BASEPOINT_TABLE(explicit)"}
 	case "triple":
 		return []string{"triple-scalar-mul(code path and package-level tables)"}
+	case "vrfprove", "vrfverify":
+		return []string{"ecvrf(package-level suite strings and padding)"}
+	case "h2c":
+		if op.X%8 >= 6 {
+			return []string{"h2c(shared DST > 255 bytes)"}
+		}
 	case "x25519":
 		if op.X&1 == 1 {
 			return []string{"x25519.Basepoint"}
@@ -443,6 +450,7 @@ type c18SigKey struct{ K, M, Var int }
 // c18Mat is the immutable material of a case: built sequentially, only read afterwards.
 type c18Mat struct {
 	seed   uint64
+	std    [6]stded.PrivateKey // the same keys as crypto/ed25519 values (ground truth)
 	privs  [6]ed25519.PrivateKey
 	pubs   [8]ed25519.PublicKey
 	msgs   [4][]byte
@@ -451,6 +459,11 @@ type c18Mat struct {
 	srKP   [2]*sr25519.KeyPair
 	srPK   [2]*sr25519.PublicKey
 	srSigs map[c18SigKey][]byte
+	// ECVRF proofs (from the reference, so that cold cases stay cold) shared by
+	// the goroutines, and a DST longer than 255 bytes (the hash-to-curve code
+	// then goes through its package-level "oversize" prefix) shared likewise
+	vrf     map[c18SigKey][]byte
+	longDST []byte
 }
 
 const c18Ctx = "c18 context"
@@ -488,10 +501,12 @@ func (m *c18Mat) msg(mi, variant int) []byte {
 // from the standard library's crypto/ed25519, the undecodable key from the
 // reference decoder: with Cold set nothing here calls the library under test.
 func c18NewMat(c c18WCase) *c18Mat {
-	m := &c18Mat{seed: c.Seed, sigs: map[c18SigKey][]byte{}, srSigs: map[c18SigKey][]byte{}}
+	m := &c18Mat{seed: c.Seed, sigs: map[c18SigKey][]byte{}, srSigs: map[c18SigKey][]byte{}, vrf: map[c18SigKey][]byte{},
+		longDST: h.Expand(c.Seed^0x3000, 300)}
 	var std [6]stded.PrivateKey
 	for i := range m.privs {
 		std[i] = stded.NewKeyFromSeed(h.Expand(c.Seed^uint64(0x1000+i), 32))
+		m.std[i] = std[i]
 		m.privs[i] = ed25519.PrivateKey(append([]byte(nil), std[i]...)) // same 64-byte layout: seed || public key (RFC 8032)
 		m.pubs[i] = ed25519.PublicKey(append([]byte(nil), std[i][32:]...))
 	}
@@ -544,6 +559,17 @@ func c18NewMat(c c18WCase) *c18Mat {
 				for _, e := range c18BatchPlan(op) {
 					needEd(c18SigningKey(e.K), op.M, op.Var)
 					needEd(c18SigningKey(e.K), (op.M+1)%4, op.Var)
+				}
+			case "vrfverify":
+				for _, mi := range []int{op.M, (op.M + 1) % 4} {
+					key := c18SigKey{op.K % 6, mi, int(op.X>>3) & 1}
+					if _, ok := m.vrf[key]; !ok {
+						f := ref.VrfRFC9381
+						if key.Var == 1 {
+							f = ref.VrfDraft10
+						}
+						m.vrf[key] = ref.VrfProve(std[key.K].Seed(), m.pubs[key.K], m.msgs[mi], nil, f)
+					}
 				}
 			case "srverify":
 				// placeholder (a well-formed but invalid signature); replaced by c18MatWarm in warm cases
@@ -646,7 +672,8 @@ func c18MatSnapshot(m *c18Mat) []byte {
 		add(m.msgs[i])
 		add(m.phs[i])
 	}
-	for _, tab := range []map[c18SigKey][]byte{m.sigs, m.srSigs} {
+	add(m.longDST)
+	for _, tab := range []map[c18SigKey][]byte{m.sigs, m.srSigs, m.vrf} {
 		for k := 0; k < 8; k++ {
 			for mi := 0; mi < 4; mi++ {
 				for v := 0; v < 3; v++ {
@@ -733,6 +760,57 @@ func c18LatticeScalar(x uint64) *scalar.Scalar {
 		panic(err)
 	}
 	return s
+}
+
+// c18GroundTruth judges the SEQUENTIAL result of an op against facts that do
+// not come from the library: keys and signatures are crypto/ed25519's, so an
+// unaltered signature of a valid key verifies under every preset and an
+// altered one under none; deterministic signatures and derived keys are the
+// standard library's.  Without this the oracle "concurrent = sequential" would
+// be blind to a package-level table corrupted for good by a racy start-up: the
+// sequential pass would compute the same wrong answer.
+func c18GroundTruth(op c18Op, m *c18Mat, seq []byte) (ok bool, what string) {
+	switch op.Kind {
+	case "verify", "vcache", "vexp":
+		valid := op.Bad == 0 && (op.Kind == "vexp" || op.K < 6)
+		if !bytes.Equal(seq, c18Bool(valid)) {
+			return false, fmt.Sprintf("signature made by crypto/ed25519 (alteration %d, key selector %d): expected %v", op.Bad, op.K, valid)
+		}
+	case "sign":
+		if op.X&1 == 1 || bytes.HasPrefix(seq, []byte("ERR:")) {
+			return true, "" // added randomness: not a function of the key and message alone
+		}
+		so := &stded.Options{}
+		switch op.Var {
+		case 1:
+			so.Context = c18Ctx
+		case 2:
+			so.Hash, so.Context = crypto.SHA512, c18Ctx
+		}
+		w, err := m.std[op.K%6].Sign(nil, m.msg(op.M, op.Var), so)
+		if err != nil || !bytes.Equal(seq, w) {
+			return false, fmt.Sprintf("deterministic signature differs from crypto/ed25519's: got %x want %x (%v)", seq, w, err)
+		}
+	case "vrfprove":
+		if (op.X>>1)&2 == 0 && len(seq) >= 80 {
+			f := ref.VrfRFC9381
+			if (op.X>>1)&1 == 1 {
+				f = ref.VrfDraft10
+			}
+			if w := ref.VrfProve(m.std[op.K%6].Seed(), m.pubs[op.K%6], m.msgs[op.M], nil, f); !bytes.Equal(seq[:80], w) {
+				return false, fmt.Sprintf("deterministic proof differs from the reference: got %x want %x", seq[:80], w)
+			}
+		}
+	case "vrfverify":
+		if valid := op.Bad == 0; len(seq) < 1 || (seq[0] == c18Bool(true)[0]) != valid {
+			return false, fmt.Sprintf("reference-made proof (alteration %d): expected %v", op.Bad, valid)
+		}
+	case "keygen":
+		if w := stded.NewKeyFromSeed(h.Expand(m.seed^op.X, 32)); !bytes.Equal(seq, w) {
+			return false, fmt.Sprintf("derived key differs from crypto/ed25519's: got %x want %x", seq, []byte(w))
+		}
+	}
+	return true, ""
 }
 
 // c18Exec performs one op.  It reads m (immutable), uses sh (shared between
@@ -909,8 +987,48 @@ func c18Exec(op c18Op, m *c18Mat, sh *c18Shared) []byte {
 			}
 		}
 		return out
+	case "vrfprove":
+		sk := m.privs[op.K%6]
+		var (
+			pi  []byte
+			err error
+		)
+		switch (op.X >> 1) & 3 {
+		case 0:
+			pi = ecvrf.Prove(sk, m.msgs[op.M])
+		case 1:
+			pi = ecvrf.Prove_v10(sk, m.msgs[op.M])
+		case 2:
+			pi, err = ecvrf.ProveWithAddedRandomness(c18NewStream(m.seed^op.X^0x31), sk, m.msgs[op.M])
+		default:
+			pi, err = ecvrf.ProveWithAddedRandomness_v10(c18NewStream(m.seed^op.X^0x31), sk, m.msgs[op.M])
+		}
+		if err != nil {
+			return []byte("ERR")
+		}
+		beta, err := ecvrf.ProofToHash(pi)
+		if err != nil {
+			return []byte("ERR-HASH")
+		}
+		return append(pi, beta...)
+	case "vrfverify":
+		v10 := int(op.X>>3) & 1
+		pi := c18BadSig(m.vrf, op.K%6, op.M, v10, op.Bad, op.X)
+		var (
+			ok   bool
+			beta []byte
+		)
+		if v10 == 1 {
+			ok, beta = ecvrf.Verify_v10(m.pubs[op.K%6], pi, m.msgs[op.M])
+		} else {
+			ok, beta = ecvrf.Verify(m.pubs[op.K%6], pi, m.msgs[op.M])
+		}
+		return append(c18Bool(ok), beta...)
 	case "h2c":
 		dst := []byte("c18-h2c-dst")
+		if op.X%8 >= 6 {
+			dst = m.longDST // THE shared slice
+		}
 		msg := m.msgs[op.M]
 		var (
 			ep  *curve.EdwardsPoint
@@ -1068,6 +1186,16 @@ func TestC18ChildWorkload(t *testing.T) {
 		}
 		if rep.Viol == nil {
 			rep.Reps++
+		}
+	}
+	if rep.Viol == nil && want != nil {
+		for g := range c.G {
+			for i, op := range c.G[g] {
+				if ok, what := c18GroundTruth(op, m, want[g][i]); !ok && rep.Viol == nil {
+					rep.Viol = &cache.C18Viol{Sig: op.Kind + ":sequential-result-contradicts-crypto/ed25519",
+						Detail: fmt.Sprintf("goroutine %d op %d %+v, evaluated sequentially AFTER the concurrent runs: %s", g, i, op, what)}
+				}
+			}
 		}
 	}
 	if rep.Viol == nil && !bytes.Equal(c18MatSnapshot(m), pristine) {
